@@ -113,8 +113,14 @@ def roots(tier, seed):
             out.append(({'kind': 'R', 'profile': list(prof)}, _ragged_depth(tier, seed, prof, k)))
     for L in range(0, b['flat_len_max'] + 1):
         out.append(({'kind': 'S', 'len': L}, b['depth']['flat']))
+        if L >= 2:
+            # the same root with its conversions already used once ("warm"): anything an object memoises about
+            # its own text must not survive later writes through views that share its memory
+            out.append(({'kind': 'S', 'len': L, 'warm': True}, b['depth']['flat']))
     for shp in b['matrix_shapes']:
         out.append(({'kind': 'M', 'shape': list(shp)}, b['depth']['matrix']))
+    for n, prof in ((2, (2, 1)), (2, (1, 2))):
+        out.append(({'kind': 'R', 'profile': list(prof), 'warm': True}, b['depth'].get('ragged_warm', 2)))
     return out
 
 
@@ -158,10 +164,11 @@ def root_value(root, enc):
 
 def root_code(root, enc):
     v = root_value(root, enc)
+    warm = '; t.to_string() if hasattr(t, "to_string") else None; t.tolist(); str(t); repr(t); len(t)' if root.get('warm') else ''
     if v[0] == 'R':
-        return 't = bnp.as_encoded_array(%r, ENC)' % (list(v[1]),)
+        return 't = bnp.as_encoded_array(%r, ENC)' % (list(v[1]),) + warm.replace('t.to_string() if hasattr(t, "to_string") else None; ', '')
     if v[0] == 'S':
-        return 't = bnp.as_encoded_array(%r, ENC)' % (v[1],)
+        return 't = bnp.as_encoded_array(%r, ENC)' % (v[1],) + warm
     return 't = bnp.as_encoded_array(%r, ENC).reshape(%d, %d)' % (''.join(v[1]), len(v[1]), v[2])
 
 
@@ -276,6 +283,17 @@ def battery(st, enc):
         add('copy', 't.copy()', 'S', s)
         if m:
             add('copy-independent', 'c = t.copy(); c[:] = %r; t' % S.mut_char(enc, s), 'S', s)
+        if m >= 2:
+            # NumPy semantics of basic slices: a write through a view (tail slice / reversed view) is seen by the
+            # array it views, also by conversions that were already used once on that array.  All on a copy.
+            c1 = S.mut_char(enc, s[1])
+            c2 = S.mut_char(enc, s[-1])
+            add('write-through-view', 'b = t.copy(); b.to_string(); b.tolist(); v = b[1:]; v[0] = %r; b.to_string()' % c1,
+                'T', s[0] + c1 + s[2:])
+            add('write-through-view', 'b = t.copy(); b.to_string(); r = b[::-1]; r[0] = %r; b.to_string()' % c2,
+                'T', s[:-1] + c2)
+            add('write-through-view', 'b = t.copy(); v = b[1:]; v.to_string(); b[1] = %r; v.to_string()' % c1,
+                'T', c1 + s[2:])
         add('ravel', 't.ravel()', 'S', s)
         add('concat-self', 'np.concatenate([t, t])', 'S', s + s)
         add('split', 'split(t, %r)' % sep, 'R', s.split(sep))
@@ -351,8 +369,14 @@ def battery(st, enc):
             add('join', 'join(t, %r)' % sep, 'S', sep.join(rows))
     if st.u is not None:
         add('saved-value', 'u', st.u[0], st.u[1] if st.u[0] == 'S' else list(st.u[1]))
+        # conversions of the SAVED register as well: it may share memory with t and may have been converted before
+        # (warm roots); whatever it memoised must not be served after a write through t
+        if st.u[0] == 'S':
+            add('saved-to-string', 'u.to_string()', 'T', st.u[1])
+        elif st.u[0] == 'R':
+            add('saved-tolist', 'u.tolist()', 'L', list(st.u[1]))
     # the only observation that writes (into a copy) goes last: if copy() shared memory it must not disturb the others
-    out.sort(key=lambda o: o[0] == 'copy-independent')
+    out.sort(key=lambda o: o[0] in ('copy-independent', 'write-through-view'))
     return out
 
 
@@ -555,7 +579,7 @@ def _empty_class(v):
     return 'no-empty-row'
 
 
-CONVERSIONS = ('string-array', 'tolist', 'to-string', 'join', 'split', 'ravel', 'copy', 'concat-self')
+CONVERSIONS = ('string-array', 'tolist', 'to-string', 'join', 'split', 'ravel', 'copy', 'concat-self', 'saved-to-string', 'saved-tolist')
 
 
 def _features(op_name, phase, operand_value, operand_sig, exc=None):
